@@ -274,8 +274,30 @@ func genHTMLText(t *rapid.T, h int) string {
 	n := rapid.IntRange(1, 4).Draw(t, "ntext")
 	for i := 0; i < n; i++ {
 		switch rapid.IntRange(0, 9).Draw(t, "textKind") {
-		case 0, 1:
+		case 0:
 			sb.WriteString(rapid.SampledFrom(htmlRefs).Draw(t, "ref"))
+		case 1:
+			// a numeric reference drawn by value class rather than from the list:
+			// ASCII, Latin-1 above ASCII (the values that are also the bytes of UTF-8
+			// lead and continuation positions), BMP, surrogates, astral
+			var v int
+			switch rapid.IntRange(0, 5).Draw(t, "refClass") {
+			case 0:
+				v = rapid.IntRange(1, 127).Draw(t, "refASCII")
+			case 1, 2:
+				v = rapid.IntRange(128, 255).Draw(t, "refLatin1")
+			case 3:
+				v = rapid.IntRange(256, 0xD7FF).Draw(t, "refBMP")
+			case 4:
+				v = rapid.IntRange(0xD800, 0xDFFF).Draw(t, "refSurrogate")
+			default:
+				v = rapid.IntRange(0x10000, 0x10FFFF).Draw(t, "refAstral")
+			}
+			if rapid.Bool().Draw(t, "refHex") {
+				fmt.Fprintf(&sb, "&#x%x;", v)
+			} else {
+				fmt.Fprintf(&sb, "&#%d;", v)
+			}
 		case 2:
 			if hostile(t, h, "rawSpecial") {
 				sb.WriteString(rapid.SampledFrom(htmlSpecial).Draw(t, "special"))
